@@ -94,16 +94,16 @@ CLAIMED = {
             "Second-thread close (C14_async_close_safe) is NOT modelled: checked on real runs only (preemption at ticks and at every executed "
             "line). The former findings F13/F17 (close() inside on_open/on_reconnect; error reported after the application's own close; second-thread race in "
             "teardown) are repaired in /repo (fix: commits, known_findings.json `fixed`); no finding is open.", "", "DESIGN.md §6 C14"),
-    "C15": ("Lean 4 theorems C15_resources (<=1 transport and <=1 ping thread at every prefix, fully general), C15_stops, C15_retry, C15_interval, C15b.C15_retry_keepalive, C14d.C15_no_attempt_after_close" + T_CORR,
+    "C15": ("Lean 4 theorems C15_resources (<=1 transport and <=1 ping thread at every prefix, fully general), C15_stops, C15_retry, C15_interval, C15c.C15_resumes (any mix of failed attempts and established-then-lost connections), C15b.C15_retry_keepalive, C14d.C15_no_attempt_after_close" + T_CORR,
             "Proof: resource bound for every world/plan/schedule; the reconnect loop does nothing once keep_running is cleared and a server "
-            "close frame or close() clears it; retry skeleton and exact interval for failed first attempts followed by any number of failures. "
+            "close frame or close() clears it; retry skeleton and exact interval for failed first attempts followed by any number of failures; C15c.C15_resumes: any number of attempts that each fail OR are established, carry legal traffic and are lost (end of stream, reset, protocol / payload error), in any mix, then a connection the server closes: the exact network skeleton (sleep r starting at the tick of the loss, the transport a reset or refused frame left open released before the next dial, dial exactly r later, one connection at a time), return value True. "
             "The external dispatcher is not modelled (real runs + Spec only); the former findings F16 (exceptions under an external dispatcher) and F18 (close() from another thread during the reconnect delay was followed by one more connection attempt; /repo 8a1f51a, generated fact appReconnectGuard) are repaired in /repo.", "", "DESIGN.md §6 C15"),
-    "C16": ("Lean 4 theorems C16_args (iff), C16_periodic, C16_no_false_positive (all arrival patterns/schedules), C16_detect (every accepted pair), C16b.C16_ping_payload (every ping of every run carries ping_payload)" + T_CORR + " in virtual time",
+    "C16": ("Lean 4 theorems C16_args (iff), C16_periodic, C16_no_false_positive (all arrival patterns/schedules), C16_detect (every accepted pair), C16b.C16_ping_payload (every ping of every run carries ping_payload), C16c.checkTorn_single / C16_single_read_* (check() reads the concurrently written stamp once: generated fact; = the modelled atomic predicate)" + T_CORR + " in virtual time, incl. the loop thread preempted at every line of check() at ping ticks",
             "Proof: argument validation exactly as documented and before connecting; pings at start+k*iv; a peer answering every ping within "
             "the timeout is never reported; a peer that stops answering is reported within (T+to, T+2*to] of the first unanswered ping T for "
             "every accepted pair; every PING written carries the configured payload (invariant through all functions of the App model). The "
             "former finding F12 (stamps overwritten by later pings / unsolicited pongs) is repaired in /repo (c89e1e8); its two counterexamples "
-            "are re-executed on the repaired model. Oracle-only scenario: ping thread descheduled right after a ping was written.", "", "DESIGN.md §6 C16"),
+            "are re-executed on the repaired model. Former finding F19 (check() read last_ping_tm several times while the ping thread stamps it: a responsive peer reported when the loop thread is preempted inside check() at a ping tick) is repaired in /repo (7480a44; generated fact appCheckReadsPingOnce; C16c gives the torn-read model, its two counterexamples and the single-read theorems). The App/Keepalive models keep each thread atomic between blocking points; inside check()/the pong stamping this is justified by the single read, elsewhere it is exercised by real runs with line-level preemption only. Oracle-only scenario: ping thread descheduled right after a ping was written.", "", "DESIGN.md §6 C16"),
     "C17": ("Lean 4 theorems C17_frame_no_internal, C17_message_no_internal, C17_request_sizes (unconditional), C17_head_no_internal, C17b.C17_recv_no_internal, C17c.C17_glue_recv/_send (the _socket glue, exhaustive correspondence)" + T_CORR,
             "Proof: on arbitrary bytes in any chunking followed by eof/silence recv_frame returns a frame or PROTO/CLOSED/TIMEOUT, and "
             "recv_data_frame a value or PROTO/PAYLOAD/CLOSED/TIMEOUT/transport error — never an internal error, never out of fuel (each loop "
